@@ -372,7 +372,20 @@ pub fn c14_script(r: &mut Rng, _index: u64, _tier: Tier) -> (CaseCfg, Vec<Step>)
     let pid = *r.pick(&[1u16, 7, 255, 256, 65535]);
     let publish = |qos: u8, dup: bool| Step::Broker(BrokerAct::Send(SPacket::Publish { dup, qos, retain: false, topic: "m".into(), pid: Some(pid), props: vec![], payload: vec![9, 9] }));
     let mut s = vec![];
-    match r.below(7) {
+    match r.below(8) {
+        // a receive buffer shorter than a fixed header: whatever arrives ends the connection with
+        // an error (the handshake cannot succeed), it never overruns the buffer
+        7 => {
+            cfg.rx = r.below(5);
+            let mut props = vec![];
+            if r.chance(1, 2) {
+                // a CONNACK long enough for a two-byte remaining length
+                props.push(Prop::ReasonString("r".repeat(130)));
+            }
+            s.push(connect_with(SpMode::Force(false), AckMode::Immediate, props));
+            s.push(Step::DropConn);
+            s.push(connect_with(SpMode::Force(false), AckMode::Immediate, vec![]));
+        }
         // the client's own limit: receive buffers on both sides of 64 KiB are advertised exactly
         6 => {
             cfg.rx = *r.pick(&[65_535usize, 65_536, 65_537, 70_000, 131_072]);
@@ -520,5 +533,38 @@ pub fn c04_script(r: &mut Rng, _index: u64, _tier: Tier) -> (CaseCfg, Vec<Step>)
     for _ in 0..24 {
         s.push(poll0());
     }
+    (cfg, s)
+}
+
+
+/// C05 / C18: one Session lives through hundreds of broker sessions (the broker never keeps
+/// one); handles issued early are queried after each of them - also while an operation of the
+/// current session carries the same packet identifier.
+pub fn fresh_sessions_script(r: &mut Rng, index: u64, _tier: Tier) -> (CaseCfg, Vec<Step>) {
+    let cfg = CaseCfg { rx: 128, tx: 512, keepalive: 0, ..CaseCfg::default() };
+    let mut s = vec![connect_with(SpMode::Force(false), AckMode::Hold, vec![])];
+    // handles of the first session: one unacknowledged, one completed
+    s.push(pubq(1 + r.below(2) as u8, "old/a", 1, 2));
+    if r.chance(1, 2) {
+        s.push(Step::Subscribe(SubSpec { filters: vec![FilterSpec { filter: "old/#".into(), max_qos: 1, no_local: false, rap: false, rh: 0 }], props: vec![], cancel_at: None }));
+    }
+    s.push(poll0());
+    let n = [255usize, 256, 257, 511, 512, 513][(index % 6) as usize] - r.below(2) * 0;
+    for k in 0..n {
+        s.push(Step::DropConn);
+        // now and then a handshake in between fails or is refused: those do not start a session
+        if r.chance(1, 40) {
+            s.push(Step::Connect(ConnectSpec { policy: IoPolicy::default(), faults: vec![], connack: ConnackSpec::Normal { sp: SpMode::Force(false), reason: 0x88, props: vec![] }, broker: BrokerPolicy::default(), cancel_at: None }));
+            s.push(Step::DropConn);
+        }
+        s.push(connect_with(SpMode::Force(false), AckMode::Hold, vec![]));
+        // around the multiples of 256: an operation of the current session takes identifier 1
+        if k + 3 >= 255 && (k + 1) % 256 <= 2 || (k + 1) % 256 >= 254 {
+            s.push(pubq(1, "new", 2, 1));
+            s.push(poll0());
+        }
+    }
+    s.push(pubq(1, "last", 3, 1));
+    s.push(poll0());
     (cfg, s)
 }
